@@ -73,23 +73,24 @@ func fatal(format string, a ...interface{}) {
 	os.Exit(2)
 }
 
-func build(race bool, bins []string) (string, error) {
+func build(p propDef) (string, error) {
 	bdir := filepath.Join(verifRoot, ".build")
 	os.MkdirAll(bdir, 0o755)
-	out := filepath.Join(bdir, "props.test")
+	pkg := strings.ToLower(p.ID)
+	out := filepath.Join(bdir, pkg+".test")
 	args := []string{"test", "-c", "-tags", "verif", "-o", out}
-	if race {
-		out = filepath.Join(bdir, "props.race.test")
+	if p.Race {
+		out = filepath.Join(bdir, pkg+".race.test")
 		args = []string{"test", "-c", "-race", "-tags", "verif", "-o", out}
 	}
-	args = append(args, "./props")
+	args = append(args, "./props/"+pkg)
 	cmd := exec.Command("go", args...)
 	cmd.Dir = filepath.Join(verifRoot, "harness")
 	cmd.Env = env()
 	if b, err := cmd.CombinedOutput(); err != nil {
 		return "", fmt.Errorf("build failed: %v\n%s", err, b)
 	}
-	for _, bn := range bins {
+	for _, bn := range p.NeedBins {
 		if bn == "macat" {
 			cmd := exec.Command("go", "build", "-o", filepath.Join(bdir, "macat"), "go.nanomsg.org/mangos/v3/macat/macat")
 			cmd.Dir = "/repo"
@@ -328,11 +329,15 @@ func main() {
 		os.Exit(replay(os.Args[2]))
 	}
 	if os.Args[1] == "build" {
-		if _, err := build(false, []string{"macat"}); err != nil {
-			fatal("%v", err)
+		var ids []string
+		for id := range props {
+			ids = append(ids, id)
 		}
-		if _, err := build(true, nil); err != nil {
-			fatal("%v", err)
+		sort.Strings(ids)
+		for _, id := range ids {
+			if _, err := build(props[id]); err != nil {
+				fatal("%s: %v", id, err)
+			}
 		}
 		return
 	}
@@ -390,7 +395,7 @@ func runProp(p propDef, tier string, seed int64, only string) int {
 	if tier == "thorough" {
 		ti = 1
 	}
-	bin, err := build(p.Race, p.NeedBins)
+	bin, err := build(p)
 	if err != nil {
 		// A tree that does not build cannot be checked: broken check, not a violation.
 		fmt.Fprintf(os.Stderr, "vcheck: %v\n", err)
